@@ -75,7 +75,7 @@ class Broken(Exception):
         self.what, self.detail = what, detail
 
 
-def go_build():
+def go_build(cmds=None):
     """Build every harness command against /repo's current working tree (tag verif)."""
     with Lock("gobuild"):
         os.makedirs(BIN, exist_ok=True)
@@ -84,18 +84,29 @@ def go_build():
         if os.path.exists(sumsrc):
             with open(sumsrc) as f, open(os.path.join(h, "go.sum"), "w") as g:
                 g.write(f.read())
-        rc, out = sh(["go", "build", "-tags", "verif", "-o", BIN + "/", "./cmd/..."], cwd=h, env=goenv(), timeout=900)
+        args = ["go", "build", "-tags", "verif"]
+        if REPO != "/repo":
+            # scratch copy of the repository (mutation testing): same module file with another replace target
+            alt = os.path.join(WORK, "go.alt.mod")
+            txt = open(os.path.join(h, "go.mod")).read().replace("=> /repo", "=> " + REPO)
+            open(alt, "w").write(txt)
+            open(os.path.join(WORK, "go.alt.sum"), "w").write(open(os.path.join(h, "go.sum")).read())
+            args += ["-modfile=" + alt]
+        targets = ["./cmd/..."] if cmds is None else ["./cmd/" + c for c in cmds]
+        rc, out = sh(args + ["-o", BIN + "/"] + targets, cwd=h, env=goenv(), timeout=900)
         if rc != 0:
-            raise Broken("go build of the harness against /repo failed", out[-4000:])
+            raise Broken("go build of the harness against the repository failed", out[-4000:])
 
 
-def regen():
+def regen(only=None):
     """Run the translators (write-if-changed)."""
     with Lock("regen"):
         gens = [("gengrammar", os.path.join(COQ, "Grammar", "Gen", "GrammarGen.v")),
                 ("genlex", os.path.join(COQ, "Lexer", "Gen", "LexTablesGen.v")),
                 ("genlocks", os.path.join(COQ, "Conc", "Gen", "LockFactsGen.v"))]
         for tool, out in gens:
+            if only is not None and tool not in only:
+                continue
             exe = os.path.join(BIN, tool)
             if not os.path.exists(exe) or not os.path.isdir(os.path.dirname(os.path.dirname(out))):
                 continue
@@ -105,10 +116,12 @@ def regen():
                 raise Broken("translator %s aborted" % tool, o[-4000:])
 
 
-def coq_make(upto=None):
+def coq_make(only=None):
     """make every Coq sub-project in order (no-op when nothing changed)."""
     with Lock("coqmake"):
         for d, n in existing_projects():
+            if only is not None and d not in only:
+                continue
             pd = os.path.join(COQ, d)
             if not os.path.exists(os.path.join(pd, "Makefile")) or \
                os.path.getmtime(os.path.join(pd, "Makefile")) < os.path.getmtime(os.path.join(pd, "_CoqProject")):
@@ -119,13 +132,12 @@ def coq_make(upto=None):
             if rc != 0:
                 raise Broken("Coq build failed in coq/%s (a proof or generated obligation no longer checks)" % d,
                              o[-6000:])
-            if upto and d == upto:
-                break
 
 
-def forbidden_scan():
+def forbidden_scan(only=None):
     bad = []
-    for root, _, files in os.walk(COQ):
+    roots = [COQ] if only is None else [os.path.join(COQ, d) for d in only]
+    for root, _, files in (x for r in roots for x in os.walk(r)):
         for f in files:
             if f.endswith(".v"):
                 p = os.path.join(root, f)
@@ -199,7 +211,7 @@ def parse_nat_list(out, marker):
 
 # ---------------------------------------------------------------- known findings
 def known_findings(prop):
-    path = os.path.join(VERIF, "known-findings.txt")
+    path = os.path.join(VERIF, "findings", prop + ".txt")
     out = []
     if not os.path.exists(path):
         return out
